@@ -22,7 +22,7 @@ theorem opsx_MakeAccumulator_pinned : Gen.AccumOps.opsx_MakeAccumulator =
 
 /-- B — `GetAccumulator`: `Accum.getAccumulator` (a fresh handle caching the stored value and total) -/
 theorem opsx_GetAccumulator_pinned : Gen.AccumOps.opsx_GetAccumulator =
-    ["=(v2,{})", "formatAccumPrefixKey(v1)", "osmoutils.Get(v0,_,&v2)", "if", "end", "!", "if", "end",
+    ["=(v2,{})", "formatAccumPrefixKey(v1)", "osmoutils.Get(v0,_,&v2)", "if", "end", "!(v3)", "if", "end",
      "=(v5,{v0,v1,v2.AccumValue,v2.TotalShares})", "return(&v5,nil)"] := by decide
 
 /-- B — `setAccumulator`: `Accum.setAccumulator` (`strings.Contains(name, KeySeparator)` ⇒ error, no write) -/
@@ -50,10 +50,10 @@ theorem opsx_AccumulatorObject_AddToPosition_pinned : Gen.AccumOps.opsx_Accumula
 
 /-- B — `AccumulatorObject.AddToPositionIntervalAccumulation`: `Accum.addToPositionInterval` / `Accum.finishShares` (rewards always recomputed; total := re-fetched total `Add` n) -/
 theorem opsx_AccumulatorObject_AddToPositionIntervalAccumulation_pinned : Gen.AccumOps.opsx_AccumulatorObject_AddToPositionIntervalAccumulation =
-    ["IsPositive(v2)", "!", "if", "return(error)", "end", "GetPosition(v0,v1)", "GetTotalRewards(v0,v4)",
-     "GetPositionSize(v0,v1)", "Add(v7,v2)", "initOrUpdatePosition(v0,v3,v1,_,v6,v4.Options)",
-     "GetAccumulator(v0.store,v0.name)", "Add(v8.totalShares,v2)", "=(v0.totalShares,_)",
-     "setAccumulator(v0,v0.valuePerShare,v0.totalShares)", "return(_)"] := by decide
+    ["IsPositive(v2)", "!(v2.IsPositive())", "if", "return(error)", "end", "GetPosition(v0,v1)",
+     "GetTotalRewards(v0,v4)", "GetPositionSize(v0,v1)", "Add(v7,v2)",
+     "initOrUpdatePosition(v0,v3,v1,_,v6,v4.Options)", "GetAccumulator(v0.store,v0.name)", "Add(v8.totalShares,v2)",
+     "=(v0.totalShares,_)", "setAccumulator(v0,v0.valuePerShare,v0.totalShares)", "return(_)"] := by decide
 
 /-- B — `AccumulatorObject.RemoveFromPosition`: `Accum.removeFromPosition` -/
 theorem opsx_AccumulatorObject_RemoveFromPosition_pinned : Gen.AccumOps.opsx_AccumulatorObject_RemoveFromPosition =
@@ -61,10 +61,11 @@ theorem opsx_AccumulatorObject_RemoveFromPosition_pinned : Gen.AccumOps.opsx_Acc
 
 /-- B — `AccumulatorObject.RemoveFromPositionIntervalAccumulation`: `Accum.removeFromPositionInterval` / `Accum.finishShares` (total := re-fetched total `Sub` n) -/
 theorem opsx_AccumulatorObject_RemoveFromPositionIntervalAccumulation_pinned : Gen.AccumOps.opsx_AccumulatorObject_RemoveFromPositionIntervalAccumulation =
-    ["IsPositive(v2)", "!", "if", "return(error)", "end", "GetPosition(v0,v1)", "GT(v2,v4.NumShares)", "if",
-     "return(error)", "end", "GetTotalRewards(v0,v4)", "GetPositionSize(v0,v1)", "Sub(v7,v2)",
-     "initOrUpdatePosition(v0,v3,v1,_,v6,v4.Options)", "GetAccumulator(v0.store,v0.name)", "Sub(v8.totalShares,v2)",
-     "=(v0.totalShares,_)", "setAccumulator(v0,v0.valuePerShare,v0.totalShares)", "return(_)"] := by decide
+    ["IsPositive(v2)", "!(v2.IsPositive())", "if", "return(error)", "end", "GetPosition(v0,v1)",
+     "GT(v2,v4.NumShares)", "if", "return(error)", "end", "GetTotalRewards(v0,v4)", "GetPositionSize(v0,v1)",
+     "Sub(v7,v2)", "initOrUpdatePosition(v0,v3,v1,_,v6,v4.Options)", "GetAccumulator(v0.store,v0.name)",
+     "Sub(v8.totalShares,v2)", "=(v0.totalShares,_)", "setAccumulator(v0,v0.valuePerShare,v0.totalShares)",
+     "return(_)"] := by decide
 
 /-- B — `AccumulatorObject.UpdatePosition`: `Accum.updatePosition` -/
 theorem opsx_AccumulatorObject_UpdatePosition_pinned : Gen.AccumOps.opsx_AccumulatorObject_UpdatePosition =
@@ -117,7 +118,7 @@ theorem opsx_initOrUpdatePosition_pinned : Gen.AccumOps.opsx_initOrUpdatePositio
 
 /-- B — `GetPosition`: `Store.getPos` -/
 theorem opsx_GetPosition_pinned : Gen.AccumOps.opsx_GetPosition =
-    ["=(v2,{})", "FormatPositionPrefixKey(v0.name,v1)", "osmoutils.Get(v0.store,_,&v2)", "!", "if", "end",
+    ["=(v2,{})", "FormatPositionPrefixKey(v0.name,v1)", "osmoutils.Get(v0.store,_,&v2)", "!(v3)", "if", "end",
      "return(v2,nil)"] := by decide
 
 /-- B — `GetTotalRewards`: `Accum.getTotalRewards` (also tied by value: `TieGenAccum.getTotalRewards_model_eq_gen`) -/
